@@ -632,6 +632,83 @@ example : ∃ tree, dispatch info (some (true, true)) .sub (.var 4) (.pyBool tru
   rw [h2]; decide +kernel
 
 
+/-! ## Values: a numpy integer scalar on either side of an integer Var (all values) -/
+
+/-- generated table: a numpy integer scalar of dtype `db` (operand kind `15 + db`) next to an integer Var of dtype `da`,
+    promotion on: where numpy's promoted type `t` is an integer type, the Var is cast to `t`, the scalar becomes a
+    Constant of type `t`, and both operand ranges embed in `t` -/
+theorem int_npscalar_shape :
+    ∀ cp ∈ [true], ∀ op ∈ intOps, ∀ da ∈ ints, ∀ db ∈ ints,
+      (match info.rt2 da (15 + db) with
+       | some t => !info.integer t ||
+           ((match dispatch info (some (true, cp)) op (.var da) (.npScalar db) with
+             | .ok (tree, d) => tree == arithTree info op t (.cast t (.arg 0)) (.constOf 1 t) && d == t
+             | .error _ => false) &&
+            (match dispatch info (some (true, cp)) op (.npScalar db) (.var da) with
+             | .ok (tree, d) => tree == arithTree info op t (.constOf 0 t) (.cast t (.arg 1)) && d == t
+             | .error _ => false) &&
+            info.rt2 (15 + db) da == some t &&
+            t != boolDt && rangeSub info da t && rangeSub info db t && decide (2 ≤ info.bits t))
+       | none => true) = true := by
+  decide +kernel
+
+/-- **`x <op> np.intN(v)` and `np.intN(v) <op> y`** (a numpy integer scalar on either side of an integer Var, promotion
+    and constant promotion on): wherever numpy's promoted type is an integer type, for all values of the Var and of the
+    scalar the emitted tree evaluates to numpy's wrapped exact result in the promoted type. -/
+theorem arith_npscalar_right (op : Op) (hop : op ∈ intOps) (da db : Nat) (hda : da ∈ ints) (hdb : db ∈ ints)
+    (t : Nat) (ht : info.rt2 da (15 + db) = some t) (hint : info.integer t = true)
+    (x v : Int) (hx : inRange info da x = true) (hv : inRange info db v = true)
+    (hdiv : op = .floordiv → v ≠ 0 ∧ ¬(x = intMin t ∧ v = -1)) :
+    ∃ tree, dispatch info (some (true, true)) op (.var da) (.npScalar db) = .ok (tree, t) ∧
+      eval info (.var da) (.npScalar db) x v tree = some (t, npInt info op t x v) := by
+  have h := int_npscalar_shape true (by simp) op hop da hda db hdb
+  simp only [ht, hint, Bool.not_true, Bool.false_or, Bool.and_eq_true, decide_eq_true_eq, bne_iff_ne, ne_eq] at h
+  obtain ⟨⟨⟨⟨⟨⟨hr, _⟩, _⟩, htb⟩, hra⟩, hrb⟩, hbits⟩ := h
+  cases hdisp : dispatch info (some (true, true)) op (.var da) (.npScalar db) with
+  | error e => simp [hdisp] at hr
+  | ok p =>
+    obtain ⟨tree, d⟩ := p
+    simp only [hdisp, Bool.and_eq_true, beq_iff_eq] at hr
+    obtain ⟨rfl, rfl⟩ := hr
+    refine ⟨_, rfl, ?_⟩
+    have hxt := inRange_mono info da d hra x hx
+    have hvt := inRange_mono info db d hrb v hv
+    have htb' : (d == boolDt) = false := by simpa using htb
+    apply arith_eval _ _ op hop d hint htb hbits _ _ x v _ _ hxt hvt hdiv
+    · simp [eval, hint, htb', wrap_id info d (by omega) x hxt]
+    · simp [eval, hint]
+
+theorem arith_npscalar_left (op : Op) (hop : op ∈ intOps) (da db : Nat) (hda : da ∈ ints) (hdb : db ∈ ints)
+    (t : Nat) (ht : info.rt2 da (15 + db) = some t) (hint : info.integer t = true)
+    (v y : Int) (hv : inRange info db v = true) (hy : inRange info da y = true)
+    (hdiv : op = .floordiv → y ≠ 0 ∧ ¬(v = intMin t ∧ y = -1)) :
+    ∃ tree, dispatch info (some (true, true)) op (.npScalar db) (.var da) = .ok (tree, t) ∧
+      eval info (.npScalar db) (.var da) v y tree = some (t, npInt info op t v y) := by
+  have h := int_npscalar_shape true (by simp) op hop da hda db hdb
+  simp only [ht, hint, Bool.not_true, Bool.false_or, Bool.and_eq_true, decide_eq_true_eq, bne_iff_ne, ne_eq] at h
+  obtain ⟨⟨⟨⟨⟨⟨_, hl⟩, _⟩, htb⟩, hra⟩, hrb⟩, hbits⟩ := h
+  cases hdisp : dispatch info (some (true, true)) op (.npScalar db) (.var da) with
+  | error e => simp [hdisp] at hl
+  | ok p =>
+    obtain ⟨tree, d⟩ := p
+    simp only [hdisp, Bool.and_eq_true, beq_iff_eq] at hl
+    obtain ⟨rfl, rfl⟩ := hl
+    refine ⟨_, rfl, ?_⟩
+    have hyt := inRange_mono info da d hra y hy
+    have hvt := inRange_mono info db d hrb v hv
+    have htb' : (d == boolDt) = false := by simpa using htb
+    apply arith_eval _ _ op hop d hint htb hbits _ _ v y _ _ hvt hyt hdiv
+    · simp [eval, hint]
+    · simp [eval, hint, htb', wrap_id info d (by omega) y hyt]
+
+-- non-vacuity: int8 Var + np.int32(1000): numpy 2 promotes to int32 (dtype 2), no wrap at int8
+example : ∃ tree, dispatch info (some (true, true)) .add (.var 0) (.npScalar 2) = .ok (tree, 2) ∧
+    eval info (.var 0) (.npScalar 2) 100 1000 tree = some (2, 1100) := by
+  obtain ⟨tree, h1, h2⟩ := arith_npscalar_right .add (by simp [intOps]) 0 2 (by simp [ints]) (by simp [ints]) 2
+    (by decide +kernel) (by decide +kernel) 100 1000 (by decide +kernel) (by decide +kernel) (fun h => by simp at h)
+  exact ⟨tree, h1, by rw [h2]; decide +kernel⟩
+
+
 /-! ## Expressions with Python int literals on either side -/
 
 /-- Expressions over integer Vars **and Python int literals** on either side of an operator. -/
